@@ -76,14 +76,16 @@ def programs(tier):
     # (a) operation sequences
     progs = []
     seqs = [()] + [(o,) for o in scen.OPS8] + [(o, p) for o in scen.OPS8 for p in scen.OPS8]
+    if tier == 'thorough':
+        seqs += [(o, p, q) for o in scen.OPS8 for p in scen.OPS8 for q in scen.OPS8]
     for ops in seqs:
         for chk in ('one', 'two', 'bytes'):
             for md in ((4096, 1024 * 1024) if len(ops) < 2 else (4096,)):
-                progs.append({'cfg': scen.ops_cfg(chk, md), 'steps': [con] + [scen.op_tuple(o, 9000 if md == 4096 else 40) for o in ops], 'frag': len(ops) <= 1 and chk != 'bytes'})
-    fam['op-sequences'] = (progs, {'frag': 1})
+                progs.append({'cfg': scen.ops_cfg(chk, md), 'steps': [con] + [scen.op_tuple(o, 9000 if md == 4096 else 40) for o in ops], 'frag': (len(ops) <= 1 or (tier == 'thorough' and len(ops) == 2)) and chk != 'bytes'})
+    fam['op-sequences'] = (progs, {'frag': 1 if tier == 'quick' else 2})
     # (b) handshake
     progs = []
-    for n in range(0, 4):
+    for n in range(0, 4 if tier == 'quick' else 6):
         for cb in (False, True):
             kw = {'transport_timeout_s': 1.0, 'read_timeout_s': 2.0, 'auth_timeout_s': 5.0, '_keys': list(range(n)),
                   '_sim': {'auth': {'first': 'choose', 'sig': 'choose', 'pub': 'choose', 'pub_delay': 2.5, 'late_delay': 7.0, 'maxdata': 4096}}}
@@ -115,7 +117,7 @@ def programs(tier):
     progs = []
     steps = [('connect', {'transport_timeout_s': 0.1, 'read_timeout_s': 0.2})] + [scen.op_tuple(o, 5000) for o in ('shell', 'stat', 'list', 'pull', 'push', 'streaming_shell')] + \
             [('close',), ('connect', {'transport_timeout_s': 0.1, 'read_timeout_s': 0.2}), scen.op_tuple('shell')]
-    for k in range(0, 110):
+    for k in range(0, 110 if tier == 'quick' else 160):
         for kind in ('timeout', 'reset', 'eof'):
             cfg = scen.ops_cfg('two', 4096)
             cfg['faults'] = {k: kind}
